@@ -105,6 +105,8 @@ var catalogue = []namedDecl{
 	{pkgSrc, "src", "LocalG", false, false, false, 1, false, true, "type LocalG[X any] struct{ V X }"},
 	{pkgSrc, "src", "LocalAlias", true, false, false, 0, false, true, "type LocalAlias = Local"},
 	{pkgSrc, "src", "localUnexp", false, false, false, 0, false, true, "type localUnexp struct{ y int }"},
+	// an unexported stand-in that no exported declaration mentions (only a replace-type entry names it)
+	{pkgSrc, "src", "hiddenRepl", false, false, false, 0, false, true, "type hiddenRepl struct{ z int }\n\nvar _ hiddenRepl"},
 	{pkgSrc, "src", "Ünit", false, false, false, 0, false, true, "type Ünit struct{ U int }"},
 	{pkgAlpha, "alpha", "Élan", false, true, true, 0, false, false, "type Élan []string"},
 	{pkgAlpha, "alpha", "Closer", false, true, false, 0, true, true, "type Closer interface{ Close2() error }"},
@@ -145,6 +147,9 @@ func (g *tyGen) pickNamed(filter func(namedDecl) bool) namedDecl {
 			continue
 		}
 		if d.Name == "localUnexp" && !g.unexpOK {
+			continue
+		}
+		if d.Name == "hiddenRepl" {
 			continue
 		}
 		if filter == nil || filter(d) {
